@@ -52,10 +52,15 @@ func TestC16GateHistory(t *testing.T) {
 			rep.Break("deployment: %v", err)
 			return
 		}
-		mk := func(dd *c16Depl, who string, stmts [][]c16ConcAttr) string {
-			tok, err := c16Mint(dd, c16BuildAssertion(sp(who), true, stmts, []string{"si-" + who}))
+		var mintFail []string
+		mk := func(dd *c16Depl, who string, stmts [][]c16ConcAttr) (tok string) {
+			var err error
+			if p, msg := safely(func() { tok, err = c16Mint(dd, c16BuildAssertion(sp(who), true, stmts, []string{"si-" + who})) }); p {
+				err = fmt.Errorf("panic: %s", strings.SplitN(msg, "\n", 2)[0])
+			}
 			if err != nil {
-				rep.Break("mint: %v", err)
+				// CreateSession gave no token: behaviour of the code under test, not a harness failure
+				mintFail = append(mintFail, who+": "+err.Error())
 			}
 			return tok
 		}
@@ -69,6 +74,11 @@ func TestC16GateHistory(t *testing.T) {
 		toks["other-value"] = mk(d, "bob", [][]c16ConcAttr{{{Fn: "groups", Name: "urn:groups", Vals: []string{"users", "administrators"}}}})
 		toks["no-attribute"] = mk(d, "dave", [][]c16ConcAttr{{{Fn: "mail", Name: "urn:mail", Vals: []string{"admins"}}}})
 		toks["foreign"] = mk(other, "mallory", [][]c16ConcAttr{{{Fn: "groups", Name: "urn:groups", Vals: []string{"admins"}}}})
+		if len(mintFail) > 0 {
+			// without its tokens the histories of this deployment cannot be driven; no clause obliges CreateSession to succeed
+			rep.DriftCase("C16:gate-history:"+spkey+":mint", "CreateSession minted no token for the gate histories of this deployment", mintFail)
+			continue
+		}
 		depls = append(depls, &depl{d: d, toks: toks})
 	}
 	if rep.Broken != "" {
